@@ -197,6 +197,12 @@ func SignHashed(rand io.Reader, priv, e []byte) (r, s []byte, err error) {
 			continue
 		}
 
+		// k must lie in [1, n-1]: k = 0 would give r = e mod n and a signature that reveals the private key
+		var zeroK [32]byte
+		if subtle.ConstantTimeCompare(K[:], zeroK[:]) == 1 {
+			continue
+		}
+
 		var kG *internal.SM2Point
 		KK := K[:]
 		kG, err = internal.ScalarBaseMult(KK)
